@@ -30,10 +30,10 @@
       and the chunk-overrun counterexample (`Lemmas/LzmaResumeExample2.lean`: same status, different consumed/output).
       LZMA1 in ANY configuration (also known size + end marker allowed, the F1 area): `lzma1_window_slicing_independent_any`.
   WHAT IS NOT COVERED: (d) that liblzma's saved
-  `sequence` + locals (`symbol`, `offset`, `len`, `limit`, `probs`) denote the continuation of 5 — C-vs-C oracle only; (e) slicings
-  are covered in both protocols: cumulative resources (`runSlicedR`) and exact per-call windows that may shrink (`runSlicedX`,
-  the protocol of `Coder.runSliced` of Model/Coder.lean) — but the theorems are about `RSt`-level runs, not instances of the generic
-  `Coder`/`Sim` framework of Props/C06.lean; (f) the non-last filters of a chain, the containers, the encoders.
+  `sequence` + locals (`symbol`, `offset`, `len`, `limit`, `probs`) denote the continuation of 5 — C-vs-C oracle only; (e) nothing on the slicing side: both protocols are covered —
+  cumulative resources (`runSlicedR`) and exact per-call windows that may shrink (`runSlicedX`), and Props/C06SliceCoder.lean restates the
+  result for `Coder.runSliced (lzCoder kind)` in the generic framework of Model/Coder.lean; the one-shot link for LZMA2 has one open corner
+  (`StuckAtWrap`: input truncated exactly when the window is full), for LZMA1 none (`oneshot_lzma1_all`); (f) the non-last filters of a chain, the containers, the encoders.
 -/
 import XzVerif.Lemmas.LzmaResumeIdle
 import XzVerif.Lemmas.LzmaResumeIdle1
@@ -43,6 +43,7 @@ import XzVerif.Lemmas.LzmaResumeL2
 import XzVerif.Lemmas.LzmaResumeInst1
 import XzVerif.Lemmas.LzmaResumeOneShot
 import XzVerif.Lemmas.LzmaResumeExample2
+import XzVerif.Lemmas.LzmaResumeExample3
 import XzVerif.Lemmas.LzmaResumeWrap1
 import XzVerif.Lemmas.LzmaResumeWrap2
 import XzVerif.Lemmas.LzmaResumeWTop
@@ -514,5 +515,14 @@ example : showRun' (runSlicedR .lzma2 exOverrun [(22, 100)] { r := initLzma2R 40
   ex_overrun_whole
 example : showRun' (runSlicedR .lzma2 exOverrun (List.replicate 16 (1, 1)) { r := initLzma2R 4096 [] })
     = (.dataError, exPlain ++ [0], 14, true) := ex_overrun_bytewise
+
+/-- exact windows (`avail_in = avail_out = 1` per call; ragged with empty calls, calls without room, shrinking windows): settled, same
+    result; a truncated input settles with LZMA_OK at the same place under every slicing -/
+example : showX (runSlicedX .lzma2 exStream (List.replicate 30 (1, 1)) { r := initLzma2R 4096 [] }) = (.streamEnd, exPlain, 14, true, false) :=
+  ex_x_bytewise
+example : showX (runSlicedX .lzma2 exStream [(5, 0), (0, 3), (9, 2), (2, 0), (1, 1), (9, 1), (9, 9), (9, 9)] { r := initLzma2R 4096 [] })
+    = (.streamEnd, exPlain, 14, true, false) := ex_x_ragged
+example : showX (runSlicedX .lzma2 (exStream.take 12) [(5, 0), (0, 3), (9, 2), (2, 0), (1, 1), (9, 1), (9, 9)] { r := initLzma2R 4096 [] })
+    = (.ok, [97], 12, true, false) := ex_x_truncated
 
 end XzVerif.C06Slice
